@@ -186,8 +186,9 @@ static int filter_assembly_str_fsa(const char unfiltered_str[],
     case FIRST_CH:
       if (unfiltered_str[i] > '!')
         filter_str[j++] = (char)tolower(unfiltered_str[i]);
-      else if (unfiltered_str[i] == ' ') {
-        filter_str[j++] = (char)tolower(unfiltered_str[i]);
+      else if (unfiltered_str[i] == ' ' || unfiltered_str[i] == '\t') {
+        // a tab separates the mnemonic from its operands like a space does
+        filter_str[j++] = ' ';
         filter_state = SPACE_FOUND;
       }
       break;
